@@ -75,6 +75,16 @@ func init() {
 			}
 		}
 	}
+	// C01 also runs the stream-level family "put immediately followed by a heartbeat round" (c04stream.go):
+	// a time-out event installed over a queued event loses that event, and later events of the stream are
+	// committed past it (seeded change C01-f); handled by the C04 stream driver (Drv/All.lean)
+	execs["c01.stream"] = execStream
+	if old, ok := gens["C01"]; ok {
+		gens["C01"] = func(w *bufio.Writer, rng *hx.Rng, tier string) {
+			old(w, rng, tier)
+			genC04PutHeartbeat(w, hx.NewRng(rng.U64()), tier, "c01.stream")
+		}
+	}
 	execs["c04.run"] = execC01
 	if old, ok := gens["C04"]; ok {
 		gens["C04"] = func(w *bufio.Writer, rng *hx.Rng, tier string) {
